@@ -197,5 +197,9 @@ def run(ctx, modname, fname, configs, what=("core",), std="gnu++17", flags=("-fn
                 broken.append(it[1])
     ctx.count("translation_units", len(jobs))
     if broken:
-        raise AnalysisBroken("; ".join(broken[:3]) + (" (+%d more)" % (len(broken) - 3) if len(broken) > 3 else ""))
+        # undecidable obligations make the run analysis-broken (exit 2) - unless definite violations were found as
+        # well, which are reported first (core.finish decides)
+        if not hasattr(ctx, "broken"):
+            ctx.broken = []
+        ctx.broken.extend(broken)
     return results
